@@ -58,6 +58,15 @@ def teardown(ctx):
     mon.finish_reach(ctx, ANCHORS)
 
 
+# every spelling of the front-matter fences that the Markdown front-matter rule accepts (3+ dashes, a closing fence at least as long, trailing blanks)
+FENCES = [("---", "---"), ("---", "-----"), ("----", "----"), ("---", "---  "), ("---  ", "---"), ("----", "------"), ("---", "---")]
+
+
+def fm_wrap(case, dumped):
+    o, c = FENCES[(case.get("seed", 0) + case.get("index", 0) + len(case.get("field", ""))) % len(FENCES)]
+    return o + "\n" + dumped + c + "\n"
+
+
 def _f(x):
     return x
 
@@ -243,7 +252,7 @@ def eval_value(ctx, case):
     ctx.count("entry_points_compared")
     # --- real front matter -> config handed to create_md_parser
     if is_jsonish(val) and not fld.metadata.get("global_only") and name != "gfm_only":
-        text = "---\n" + yaml.safe_dump({"myst": {name: val}}) + "---\n\nbody\n"
+        text = fm_wrap(case, yaml.safe_dump({"myst": {name: val}})) + "\nbody\n"
         CAPTURED.clear()
         try:
             doc, w = drive.parse_pre(text)
@@ -385,8 +394,8 @@ def eval_effect(ctx, case):
     else:
         glob_val = val
     glob_kw[name] = glob_val
-    t_global = "---\n" + yaml.safe_dump({"other": "x", **fm_extra}) + "---\n" + body
-    t_front = "---\n" + yaml.safe_dump({"other": "x", **fm_extra, "myst": {name: val}}) + "---\n" + body
+    t_global = fm_wrap(case, yaml.safe_dump({"other": "x", **fm_extra})) + "" + body
+    t_front = fm_wrap(case, yaml.safe_dump({"other": "x", **fm_extra, "myst": {name: val}})) + "" + body
     try:
         d1, w1 = drive.parse(t_global, doctitle_xform=False, **G.cfg_to_overrides(glob_kw))
         d2, w2 = drive.parse(t_front, doctitle_xform=False, **G.cfg_to_overrides(base))
@@ -430,8 +439,8 @@ def eval_effect_sphinx(ctx, case):
     fm_extra = {"title": "Front Title"} if name == "title_to_header" else {}
     glob_kw = dict(base)
     glob_kw[name] = {**base.get(name, {}), **val} if fields()[name].metadata.get("merge_topmatter") else val
-    t_global = "---\n" + yaml.safe_dump({"other": "x", **fm_extra}) + "---\n" + body
-    t_front = "---\n" + yaml.safe_dump({"other": "x", **fm_extra, "myst": {name: val}}) + "---\n" + body
+    t_global = fm_wrap(case, yaml.safe_dump({"other": "x", **fm_extra})) + "" + body
+    t_front = fm_wrap(case, yaml.safe_dump({"other": "x", **fm_extra, "myst": {name: val}})) + "" + body
     out = []
     for text, kw in ((t_global, glob_kw), (t_front, base)):
         b = drive.SphinxBuild({"index.md": text}, conf={"myst_" + k: v for k, v in kw.items()}, builder="dummy")
@@ -471,8 +480,8 @@ def eval_invalid_doc(ctx, case):
     g = G.Gen(__import__("random").Random(case["seed"]), max_depth=2)
     body, _ = g.document(1, 3)
     body += "\nclosing paragraph\n"  # other content, so that the extra warning node does not decide about the footnotes transition
-    t_bad = "---\n" + yaml.safe_dump({"myst": {name: val}}) + "---\n" + body
-    t_ref = "---\n" + yaml.safe_dump({"myst": {}}) + "---\n" + body
+    t_bad = fm_wrap(case, yaml.safe_dump({"myst": {name: val}})) + "" + body
+    t_ref = fm_wrap(case, yaml.safe_dump({"myst": {}})) + "" + body
     try:
         d1, w1 = drive.parse(t_bad, doctitle_xform=False)
         d2, w2 = drive.parse(t_ref, doctitle_xform=False)
